@@ -10,7 +10,7 @@ from . import jsonval as J
 LEVEL = 'model_checking'
 BUDGET_S = {'quick': 150, 'thorough': 1200}
 BOUNDS = {
-    'quick': 'two calls (name, [path,] args, kwargs): names from {f, g}; 1 positional argument template depth <= 1 width <= 2 '
+    'quick': 'two calls (name, [path,] args, kwargs): names from {f, g}; in the arity families 0-2 positional leaves (literal "k", free string, integer) with keyword k on one side, both sides or k / j; otherwise 1 positional argument template depth <= 1 width <= 2 '
              '(leaves None / bool / unbounded int / integer-valued float / specials -0.0 inf / string atoms; dict keys '
              'str/int/bool/None/float) and optionally one keyword argument; subbuild pairs in the same build (duplicate '
              'RuntimeError iff same entry) and in consecutive builds (hit iff same entry); build_file pairs in consecutive '
@@ -29,6 +29,7 @@ MID = {'leaf_kinds': ['none', 'bool', 'int', 'float', 'special', 'str'], 'key_ki
        'specials': [-0.0, float('inf')], 'lits': ['true', '']}
 SLIM = {'leaf_kinds': ['none', 'bool', 'int', 'float', 'str'], 'key_kinds': ['str', 'int', 'bool'], 'specials': [], 'lits': ['true']}
 TINY = {'leaf_kinds': ['int'], 'key_kinds': ['str', 'int'], 'specials': [], 'lits': ['true']}
+ARITY = {'leaf_kinds': ['int', 'str'], 'key_kinds': ['str'], 'specials': [], 'lits': ['k', 'j']}
 FALSY = {'leaf_kinds': ['none', 'bool', 'int', 'str'], 'key_kinds': ['str'], 'specials': [], 'lits': ['']}
 SPELLINGS = ['abs', 'rel', 'dot', 'slashes', 'trailing', 'dotdot', 'bytes', 'pathlike']
 
@@ -45,6 +46,10 @@ def families(tier):
         # build_file compares arguments with is_equal (not through the hashable form): lists, empty containers and the
         # falsy leaves against each other
         {'name': 'bf-next-build', 'params': {'depth': 1, 'width': 1, 'shape': FALSY, 'kw': False, 'spellings': ['abs']}, 'weight': 2},
+        # 0-2 positional arguments next to keyword arguments (a positional string may spell the keyword's name)
+        {'name': 'sb-same-build', 'params': {'depth': 0, 'width': 0, 'shape': ARITY, 'kw': True, 'arity': True}, 'weight': 1},
+        {'name': 'sb-next-build', 'params': {'depth': 0, 'width': 0, 'shape': ARITY, 'kw': True, 'arity': True}, 'weight': 1},
+        {'name': 'bf-next-build', 'params': {'depth': 0, 'width': 0, 'shape': ARITY, 'kw': True, 'arity': True, 'spellings': ['abs']}, 'weight': 1},
     ]
     if tier == 'quick':
         return q
@@ -95,14 +100,25 @@ def harness(eng, fam, P):
     n2 = names[eng.choose('name2', 2)]
     a1 = J.gen_value(eng, 'a1', P['depth'], P['width'], sh)
     a2 = J.gen_value(eng, 'a2', P['depth'], P['width'], sh)
+    args1, args2 = [a1], [a2]
+    if P.get('arity'):
+        # a variable number of positional arguments (strings that may spell a keyword name included) next to keyword
+        # arguments: f('k', 3) and f(k=3) are different entries
+        def pos(tag):
+            k = eng.choose('pk' + tag, 3)
+            return eng.lit('k') if k == 0 else (eng.fresh_str('ps' + tag) if k == 1 else eng.fresh_int('pi' + tag))
+        args1 = [pos('1_%d' % i) for i in range(eng.choose('n1', 3))]
+        args2 = [pos('2_%d' % i) for i in range(eng.choose('n2', 3))]
     kw1, kw2 = {}, {}
     if P.get('kw'):
-        kk = eng.choose('kwshape', 3)          # none / same key / different keys
-        if kk >= 1:
-            kw1 = {'k': J.gen_leaf(eng, 'kw1', ['none', 'bool', 'int', 'float', 'str'], sh)}
-            kw2 = {('k' if kk == 1 else 'j'): J.gen_leaf(eng, 'kw2', ['none', 'bool', 'int', 'float', 'str'], sh)}
+        kk = eng.choose('kwshape', 5 if P.get('arity') else 3)          # none / same key / different keys / only call 1 / only call 2
+        kwkinds = ['int'] if P.get('arity') else ['none', 'bool', 'int', 'float', 'str']
+        if kk in (1, 2, 3):
+            kw1 = {'k': J.gen_leaf(eng, 'kw1', kwkinds, sh)}
+        if kk in (1, 2, 4):
+            kw2 = {('j' if kk == 2 else 'k'): J.gen_leaf(eng, 'kw2', kwkinds, sh)}
     w = World(eng, [], fixed={'o': 'D'}, sandbox=getattr(eng, 'sandbox', None))
-    eng.path_info.update({'call1': repr((n1, a1, kw1))[:200], 'call2': repr((n2, a2, kw2))[:200]})
+    eng.path_info.update({'call1': repr((n1, args1, kw1))[:200], 'call2': repr((n2, args2, kw2))[:200]})
     calls = []
     received = []
 
@@ -119,17 +135,17 @@ def harness(eng, fam, P):
 
     try:
         w.bind({'repr': eng.repr_fn()} if eng.symbolic else None)
-        e1 = [J.spec_roundtrip(eng, a1)], J.spec_roundtrip(eng, kw1)
-        e2 = [J.spec_roundtrip(eng, a2)], J.spec_roundtrip(eng, kw2)
+        e1 = [J.spec_roundtrip(eng, x) for x in args1], J.spec_roundtrip(eng, kw1)
+        e2 = [J.spec_roundtrip(eng, x) for x in args2], J.spec_roundtrip(eng, kw2)
         same_args = L.and_(J.spec_equal(e1[0], e2[0]), J.spec_equal(e1[1], e2[1]))
         sig = (fam,)
         if fam == 'sb-same-build':
             out = {}
 
             def root(b):
-                b.subbuild(n1, sb, a1, **kw1)
+                b.subbuild(n1, sb, *args1, **kw1)
                 try:
-                    b.subbuild(n2, sb, a2, **kw2)
+                    b.subbuild(n2, sb, *args2, **kw2)
                     out['dup'] = False
                 except RuntimeError:
                     out['dup'] = True
@@ -141,9 +157,9 @@ def harness(eng, fam, P):
                       info={'call1': eng.path_info['call1'], 'call2': eng.path_info['call2'], 'duplicate_rejected': observed})
             eng.check('C07.function-called-once-per-entry', len(calls) == (1 if observed else 2), sig)
         elif fam == 'sb-next-build':
-            FileBuilder.build(w.cache, 'n', lambda b: b.subbuild(n1, sb, a1, **kw1))
+            FileBuilder.build(w.cache, 'n', lambda b: b.subbuild(n1, sb, *args1, **kw1))
             k = len(calls)
-            FileBuilder.build(w.cache, 'n', lambda b: b.subbuild(n2, sb, a2, **kw2))
+            FileBuilder.build(w.cache, 'n', lambda b: b.subbuild(n2, sb, *args2, **kw2))
             observed = len(calls) == k             # hit: not invoked again
             same = L.and_(n1 == n2, same_args)
             eng.check('C07.hit-iff-same-entry', same if observed else L.not_(same), sig + ('hit' if observed else 'miss',),
@@ -160,10 +176,10 @@ def harness(eng, fam, P):
             cwd1 = w.root
             cwd2 = w.p('q') if other else w.root
             w.fs.cwd = cwd1
-            FileBuilder.build(w.cache, 'n', lambda b: b.build_file(rel, n1, bf, a1, **kw1))
+            FileBuilder.build(w.cache, 'n', lambda b: b.build_file(rel, n1, bf, *args1, **kw1))
             k = len(calls)
             w.fs.cwd = cwd2
-            FileBuilder.build(w.cache, 'n', lambda b: b.build_file(rel2, n2, bf, a2, **kw2))
+            FileBuilder.build(w.cache, 'n', lambda b: b.build_file(rel2, n2, bf, *args2, **kw2))
             w.fs.cwd = cwd1
             observed = len(calls) == k
             same = L.and_(n1 == n2, not other, same_args)
@@ -182,9 +198,9 @@ def harness(eng, fam, P):
             eng.path_info['spelling'] = how
             p1 = w.p('o/t')
             p2 = spell(w, 'o/t' if not other else 'o/u', how)
-            FileBuilder.build(w.cache, 'n', lambda b: b.build_file(p1, n1, bf, a1, **kw1))
+            FileBuilder.build(w.cache, 'n', lambda b: b.build_file(p1, n1, bf, *args1, **kw1))
             k = len(calls)
-            FileBuilder.build(w.cache, 'n', lambda b: b.build_file(p2, n2, bf, a2, **kw2))
+            FileBuilder.build(w.cache, 'n', lambda b: b.build_file(p2, n2, bf, *args2, **kw2))
             observed = len(calls) == k
             same = L.and_(n1 == n2, not other, same_args)
             eng.check('C07.hit-iff-same-entry', same if observed else L.not_(same), sig + ('hit' if observed else 'miss', how),
@@ -201,7 +217,7 @@ def harness(eng, fam, P):
             eng.check('C07.callee-arguments-roundtripped', ok, sig, info={'received': repr((args, kw))[:200]})
             eng.witness('callee-got-roundtripped-copy')
             idx += 1
-        eng.sample({'family': fam, 'call1': [n1, J.concretise(a1), J.concretise(kw1)], 'call2': [n2, J.concretise(a2), J.concretise(kw2)],
+        eng.sample({'family': fam, 'call1': [n1, J.concretise(args1), J.concretise(kw1)], 'call2': [n2, J.concretise(args2), J.concretise(kw2)],
                     'same_entry_observed': observed})
     finally:
         w.close()
